@@ -510,3 +510,21 @@ def e14(ctx):
                       "object id, not the etag string GET, PROPFIND and multiget return for the same bytes"
                       % (src(raw[0][1])[:50] if raw else "", raw[0][0].lineno if raw else 0)))
     return obs
+
+
+@rule("C02", "E15", floor=1, kind="N",
+      desc="a report answers with the ETag of the resource its href names: the route prefix is removed from an href by "
+           "slicing, never by a character-set strip (same obligations as C17/M6) - otherwise the multiget returns another "
+           "resource's ETag and data under the requested href")
+def e15(ctx):
+    from .c17 import m6
+    return m6(ctx)
+
+
+@rule("C02", "E16", floor=20, kind="N",
+      desc="a listing publishes a member's ETag under the URL of that member: what reaches create_href is an unquoted path "
+           "(same obligations as C16/Q2) - a name quoted during the traversal is quoted again on the way out and the ETag "
+           "appears under the URL of another (or of no) resource")
+def e16(ctx):
+    from .c16 import q2
+    return q2(ctx)
